@@ -87,7 +87,9 @@ func extractOaRules() (string, error) {
 		return "", fmt.Errorf("unexpected shape of extractValidationConstraints (%d kind rows, %d cardinality rows)", len(kindApply), len(cardApply))
 	}
 	var applyGetter [][2]string
-	var assigns, exclusive, nodeLits, countConv []string
+	var assigns, exclusive, nodeLits, countConv, nodeCalls []string
+	nodeHelpers := map[string]string{}
+	var nodeHelperOrder []string
 	var formatSwitch [][2]string
 	for _, name := range applyFuncs {
 		fd := findFunc(f, name)
@@ -181,6 +183,26 @@ func extractOaRules() (string, error) {
 						if srcOf(x.Type) == "yaml.Node" {
 							nodeLits = append(nodeLits, fmt.Sprintf("(%s, %s, %s)", leanStr(name), leanStr(acc), leanStrList(litKeys(x))))
 						}
+					case *ast.CallExpr:
+						// a value built by a helper of the file that returns a yaml.Node literal (stringNode)
+						if id, ok := x.Fun.(*ast.Ident); ok {
+							if h := findFunc(f, id.Name); h != nil && h.Body != nil {
+								var lit *ast.CompositeLit
+								ast.Inspect(h.Body, func(m ast.Node) bool {
+									if cl, ok := m.(*ast.CompositeLit); ok && lit == nil && srcOf(cl.Type) == "yaml.Node" {
+										lit = cl
+									}
+									return lit == nil
+								})
+								if lit != nil {
+									nodeCalls = append(nodeCalls, leanTuple(name, acc, id.Name))
+									if _, seen := nodeHelpers[id.Name]; !seen {
+										nodeHelperOrder = append(nodeHelperOrder, id.Name)
+									}
+									nodeHelpers[id.Name] = fmt.Sprintf("(%s, %s, %s)", leanStr(id.Name), leanStrList(litKeys(lit)), leanStr(litValue(lit, "Tag")))
+								}
+							}
+						}
 					}
 					return true
 				})
@@ -199,6 +221,12 @@ func extractOaRules() (string, error) {
 	fmt.Fprintf(&b, "/-- (apply function, guarding rule accessor, schema field assigned), in source order. -/\ndef assigns : List (String × String × String) := %s\n", leanList(assigns))
 	fmt.Fprintf(&b, "/-- the composite literals stored in ExclusiveMinimum / ExclusiveMaximum: (apply function, schema field, keys of the literal, source text of its `N` value or \"\"). -/\ndef exclusiveLits : List (String × String × List String × String) := %s\n", leanList(exclusive))
 	fmt.Fprintf(&b, "/-- keys of every `yaml.Node{...}` literal (apply function, guarding accessor, keys). -/\ndef nodeLits : List (String × String × List String) := %s\n", leanList(nodeLits))
+	var helperRows []string
+	for _, h := range nodeHelperOrder {
+		helperRows = append(helperRows, nodeHelpers[h])
+	}
+	fmt.Fprintf(&b, "/-- values built by a node helper of the file instead of a literal: (apply function, guarding accessor, helper). -/\ndef nodeCalls : List (String × String × String) := %s\n", leanList(nodeCalls))
+	fmt.Fprintf(&b, "/-- the `yaml.Node{...}` literal each such helper returns: (helper, keys, source text of its `Tag` value or \"\"). -/\ndef nodeHelpers : List (String × List String × String) := %s\n", leanList(helperRows))
 	fmt.Fprintf(&b, "/-- numeric conversions applied to rule values before they are stored (apply function, accessor, conversion). -/\ndef conversions : List (String × String × String) := %s\n", leanList(countConv))
 	fmt.Fprintf(&b, "/-- the well-known format switch of applyStringConstraints: accessor ↦ format, in source order. -/\ndef formatSwitch : List (String × String) := %s\n", leanPairs(formatSwitch))
 	b.WriteString("end Sebuf.Gen.OaRules\n")
